@@ -425,6 +425,9 @@ type Scenario struct {
 	NoIter   bool // do not iterate bounds 0..Bound, run Bound only
 }
 
+// IrreproducibleSuffix marks violations whose outcome depends on earlier executions in the process (explore.confirm).
+const IrreproducibleSuffix = "/outcome-depends-on-earlier-executions-in-the-process"
+
 // ReplayCase is the replay artefact of an explorer scenario.
 type ReplayCase struct {
 	Scenario string   `json:"scenario"`
@@ -476,7 +479,7 @@ func (r *Run) RunScenarios(scs []Scenario) {
 		var last explore.Stats
 		var completed = -1
 		for b := b0; b <= sc.Bound; b++ {
-			ex := &explore.Explorer{Bound: b, Deadline: r.deadline, PanicSig: sc.PanicSig, Workers: workers}
+			ex := &explore.Explorer{Bound: b, Deadline: r.deadline, PanicSig: sc.PanicSig, Workers: workers, ReportIrreproducible: true}
 			st, found := ex.Explore(sc.Body)
 			for _, s := range st.Infra {
 				r.Infra("%s: %s", sc.Name, s)
@@ -580,6 +583,21 @@ func (r *Run) replay(scs []Scenario) {
 	for _, sc := range scs {
 		if sc.Name != f.Case.Scenario {
 			continue
+		}
+		if strings.HasSuffix(f.Signature, IrreproducibleSuffix) {
+			// the outcome depends on what ran earlier in the process: the whole scenario is explored again
+			for b := 0; b <= sc.Bound; b++ {
+				exa := &explore.Explorer{Bound: b, PanicSig: sc.PanicSig, Workers: 1, ReportIrreproducible: true}
+				_, found := exa.Explore(sc.Body)
+				for _, fd := range found {
+					if fd.Sig == f.Signature {
+						fmt.Printf("VIOLATION property=%s replay=%s\n  signature: %s\n  %s\n", r.ID, r.Replay, fd.Sig, fd.Msg)
+						os.Exit(1)
+					}
+				}
+			}
+			fmt.Println("replay: no violation")
+			os.Exit(0)
 		}
 		ex := &explore.Explorer{Bound: 1 << 30, PanicSig: sc.PanicSig}
 		x, v, infra := ex.RunOne(sc.Body, f.Case.Choices, true)
